@@ -5,6 +5,10 @@ import AcraModel.Sql.ExprSound
 import AcraModel.Sql.ExprSubst
 import AcraModel.Sql.ExprConverse
 import AcraModel.Sql.Forms
+import AcraModel.Sql.Grammar
+import AcraModel.Sql.ExprTokens
+import AcraModel.Sql.SelectRoundTrip
+import AcraModel.Sql.SelectTokens
 /-!
 # C13 — re-serialised statements mean the same as the statements received
 
@@ -18,6 +22,13 @@ every tree in the image of the parser (`Producible`) is read back from its print
 Part 3: statement forms (`Sql/Forms.lean`) – for every statement node the print paths of its `Format` method and the
 grammar alternatives that build it are regenerated from `ast.go` / `ast_methods.go` / `sql.y`; on every print path every
 field the grammar can fill on that path is printed (`fact_format_prints_all_fields`, `format_keeps_clauses`).
+Part 4: what the grammar actions keep (`Sql/Grammar.lean`) – for every alternative of `sql.y` reachable from the DML
+statements the positions whose value flows into `$$` are regenerated; every symbol with a semantic value is used
+(`grammar_uses_every_operand`), hence no derivation loses a lexeme it reads (`derivation_keeps_lexemes`); the generated
+parser `sql.go` is in step with `sql.y` (`fact_generated_parser_matches_grammar`). For the expression fragment the
+token conservation is proved on the parser itself (`parse_keeps_lexemes`).
+Part 5: the SELECT core (`Sql/Select.lean`) – select list with aliases and `*`, FROM with join chains, WHERE, GROUP BY,
+HAVING, ORDER BY, LIMIT around the expression fragment: `select_roundtrip`.
 -/
 namespace AcraModel.Props.C13
 open AcraModel AcraModel.Sql.Literal Generated.SqlLiterals
@@ -254,6 +265,21 @@ theorem roundtrip_iff_producible (t : Expr) (hl : LeavesOk t) :
     parseExpr (tokens (format t)) = some t ↔ Producible t :=
   ⟨fun h => parse_producible _ t (allOk_toks t hl) h, expr_roundtrip t⟩
 
+/-- **Nothing is lost between the text received and the text sent on** (expression fragment). Whatever token list
+the parser accepts (tokens as the tokenizer yields them), the printed form of the tree it returns holds exactly the
+value-carrying tokens of the input – every literal and every identifier, in the same order, nothing dropped,
+duplicated or invented. Keywords, operators and parentheses are what the tree's node kinds record (`expr_roundtrip`). -/
+theorem parse_keeps_lexemes (ts : List Tok) (t : Expr) (hok : AllOk ts) (h : parseExpr ts = some t) :
+    lexemes (tokens (format t)) = lexemes ts :=
+  parseExprFuel_keeps hok h
+
+/-- non-vacuity: `a = -1 and f('x', b) is not null` keeps `a 1 f 'x' b`; the sign is an operator token -/
+example :
+    let ts : List Tok := [.id [97], .sym .eq, .sym .minus, .lit tyInt [49], .sym .and_, .id [102], .sym .lp, .lit tyStr [120],
+      .sym .comma, .id [98], .sym .rp, .sym .is_, .sym .not_, .sym .null]
+    (parseExpr ts).isSome = true ∧ lexemes ts = [.id [97], .lit tyInt [49], .id [102], .lit tyStr [120], .id [98]] := by
+  decide +kernel
+
 private def ca : Expr := .col [97]
 private def cb : Expr := .col [98]
 private def cc : Expr := .col [99]
@@ -418,5 +444,150 @@ example :
     ((formatPath s).map fun π => s.present.all (keeps π)) = some true := by decide +kernel
 
 end Forms
+
+/-! ## Part 4: what the grammar actions keep of what the parser reads -/
+section Grammar
+open AcraModel.Sql.Grammar Generated.SqlGrammar
+
+/-- **The pinned exemptions**: the only right-hand-side symbols with a semantic value (a lexeme-carrying token, or a
+non-terminal with a `%type`) on alternatives reachable from SELECT / INSERT / UPDATE / DELETE whose value does not
+flow into `$$` are the noise word FOR|FROM of `NEXT n VALUES FOR t` and the table qualifier of a column in an INSERT
+column list (`Sql/Grammar.lean: exempt` gives the reasons) – and the model's own reading of the table agrees with the
+extractor's list. An action that stops using `$5` (the ESCAPE operand of NOT ILIKE) or `$8` (ON DUPLICATE KEY UPDATE
+after INSERT … SET; `len($8)` does not count – a length carries no content) adds an entry and breaks this. -/
+theorem fact_grammar_exemptions :
+    unusedSemantic = [("select_statement", 3, 6, "for_from"), ("ins_column_list", 2, 1, "column_id"),
+      ("ins_column_list", 4, 3, "column_id")] ∧
+    unusedOf alts = unusedSemantic ∧
+    (unusedSemantic.map fun e => (e.1, e.2.1, e.2.2.1)) = exempt := by decide +kernel
+
+/-- the finite check over the regenerated table: every lexeme-carrying token and every non-terminal with a semantic
+value of every reachable alternative flows into `$$` or is exempt; non-terminals without a value derive keywords and
+punctuation only (the list of such rules is closed under the grammar) -/
+theorem fact_grammar_uses_every_operand : tableOK = true ∧ lexFreeClosed = true := by decide +kernel
+
+/-- the table is the whole reachable grammar: the statement rules, the expression rules and the clause rules are in it -/
+theorem fact_grammar_table_covers :
+    (["select_statement", "base_select", "insert_statement", "update_statement", "delete_statement", "expression",
+      "condition", "value_expression", "like_escape_opt", "on_dup_opt", "update_list", "limit_opt", "order_by_opt",
+      "table_reference", "join_table", "subquery", "convert_type", "function_call_keyword"].all
+        fun r => alts.any (·.rule == r)) = true ∧ 500 ≤ alts.length := by decide +kernel
+
+/-- **The grammar uses every operand.** In every alternative of `sql.y` that is reachable from the DML statements,
+every right-hand-side symbol that carries meaning – an identifier / literal / placeholder token, or a non-terminal
+with a semantic value – flows into the value the action builds, unless it is one of the pinned exemptions. -/
+theorem grammar_uses_every_operand (A : GAlt) (hA : A ∈ alts) (k : Nat) (s : GSym) (hs : A.rhs[k]? = some s)
+    (hc : s.cls = .lex ∨ s.cls = .sem) :
+    A.flow.contains (k + 1) = true ∨ exempt.contains (A.rule, A.idx, k + 1) = true := by
+  have h := fact_grammar_uses_every_operand.1
+  simp only [tableOK, tableOKFor, List.all_eq_true] at h
+  have := symsOK_spec 1 A.rhs (h A hA) k s hs hc
+  rwa [Nat.add_comm 1 k] at this
+
+/-- **No derivation loses a lexeme.** For every derivation tree of the reachable grammar (any statement the parser
+accepts, of any size) in which nothing with a lexeme stands at an exempt position, the lexemes kept in the semantic
+value the actions build are exactly the identifier / literal / placeholder / comment lexemes of the text, in order.
+(Model level: an action whose `$$` depends on `$n` keeps all of `$n`; the token-conservation oracle checks the real
+parser and printer against that.) -/
+theorem derivation_keeps_lexemes (d : Deriv) (hw : d.wf alts = true) (he : d.exemptEmpty exempt = true) :
+    d.kept alts = d.read :=
+  kept_eq_read fact_grammar_uses_every_operand.1 fact_grammar_uses_every_operand.2 d hw he
+
+/-- **The generated parser is in step with the grammar.** `sql.go` is what the build compiles (`make sql.go` runs
+goyacc on `sql.y`; nothing regenerates it at build time): for every production number the `case N:` block of its
+action switch pops as many symbols as the alternative of `sql.y` has and mentions exactly the positions the action in
+`sql.y` mentions. An edit of `sql.go` alone – or of `sql.y` alone – breaks this. -/
+theorem fact_generated_parser_matches_grammar :
+    sqlGoMismatches = [] ∧ 600 ≤ sqlGoCompared ∧ sqlGoCompared ≤ sqlGoProductions := by decide +kernel
+
+private def veStr (s : Bytes) : Deriv :=
+  .node "value_expression" 1 [.node "column_name_value_expr" 3 [.node "value" 1 [.tok "SINGLE_QUOTE_STRING" s]]]
+
+/-- `a not ilike 'x' escape '!'` (operands as string tokens) as a derivation of rule `condition`, alternative 7 -/
+private def notIlikeEscape : Deriv :=
+  .node "condition" 7 [veStr [97], .tok "NOT" [], .tok "ILIKE" [], veStr [120],
+    .node "like_escape_opt" 2 [.tok "ESCAPE" [], veStr [33]]]
+
+/-- **The check is not vacuous**: with position 5 (the ESCAPE operand) taken out of the flow of the NOT ILIKE
+alternative – what dropping `Escape: $5` from its action does – the finite check fails, and the model exhibits the
+statement: the derivation of `… not ilike … escape '!'` reads three literals and keeps two. On the regenerated table
+the same derivation keeps all three. -/
+theorem seeded_grammar_counterexample :
+    tableOKFor exempt (withoutFlow "condition" 7 5 alts) = false ∧
+    notIlikeEscape.wf alts = true ∧ notIlikeEscape.exemptEmpty exempt = true ∧
+    notIlikeEscape.read = [("SINGLE_QUOTE_STRING", [97]), ("SINGLE_QUOTE_STRING", [120]), ("SINGLE_QUOTE_STRING", [33])] ∧
+    notIlikeEscape.kept alts = notIlikeEscape.read ∧
+    notIlikeEscape.kept (withoutFlow "condition" 7 5 alts) =
+      [("SINGLE_QUOTE_STRING", [97]), ("SINGLE_QUOTE_STRING", [120])] := by decide +kernel
+
+end Grammar
+
+/-! ## Part 5: the SELECT core -/
+section SelectCore
+open AcraModel.Sql.Expr AcraModel.Sql.Select
+
+/-- **Well-formed SELECT statements round-trip.** For every statement of the modelled core –
+`SELECT [DISTINCT] items FROM table references [WHERE] [GROUP BY] [HAVING] [ORDER BY] [LIMIT]`, items `*` or an expression
+with an optional alias, table references with chains of inner / straight / left / right / natural joins with their ON
+conditions, the three LIMIT spellings – whose expressions are producible (`Sel.Ok`: in the image of the parser), the
+token sequence of the printed statement (`Select.Format` and the `Format` methods of its clause nodes) is read back as
+exactly that statement: no clause, list element, alias, join, condition, direction or literal is lost, added, moved to
+another clause or altered. (The join chain is kept as the flat list `JoinTableExpr.Format` prints; ORDER BY NULL /
+rand(), which Acra prints without a direction, USING, sub-queries, hints, locks and comments are outside the core.) -/
+theorem select_roundtrip (s : Sel) (h : s.Ok) : parseSel (stoks s) = some s := parseSel_stoks s h
+
+/-- … in the executable form the harness uses (`C13.sel.ok` / `C13.sel.roundtrip`) -/
+theorem select_roundtrip_checked (s : Sel) (h : s.okB = true) : parseSel (stoks s) = some s :=
+  parseSel_stoks s (Sel.ok_of_okB h)
+
+/-- **Different well-formed statements never print alike**: the printer is injective on the core. -/
+theorem select_format_injective (s₁ s₂ : Sel) (h₁ : s₁.Ok) (h₂ : s₂.Ok) (h : stoks s₁ = stoks s₂) : s₁ = s₂ := by
+  have a := select_roundtrip s₁ h₁
+  rw [h, select_roundtrip s₂ h₂] at a
+  injection a with a
+  exact a.symm
+
+/-- **Nothing is lost between the statement received and the statement sent on** (SELECT core). Whatever token sequence
+the statement parser accepts (tokens as the tokenizer yields them), the printed form of the statement it returns holds
+exactly the value-carrying tokens of the input – every literal, column, function and table name and alias, in the same
+order – in whatever clause they stand. (The converse direction of `select_roundtrip`: that one starts from a tree, this
+one from the text.) -/
+theorem select_keeps_lexemes (ts : List STok) (s : Sel) (hok : AllOkS ts) (h : parseSel ts = some s) :
+    lexS (stoks s) = lexS ts := parseSel_keeps hok h
+
+private def exSel : Sel :=
+  { distinct := true
+    items := [.expr (.col [97]) (some [120]), .star, .expr (.func [102] [.col [98], .val tyInt [49]]) none]
+    from_ := [⟨⟨[116], none⟩, [⟨.left, ⟨[117], some [118]⟩, some (.cmp .eq (.col [97]) (.col [98]))⟩, ⟨.natural, ⟨[119], none⟩, none⟩]⟩,
+      ⟨⟨[122], some [121]⟩, []⟩]
+    where_ := some (.and (.cmp .eq (.col [97]) (.val tyInt [49])) (.paren (.or (.col [98]) (.is .isNull (.col [99])))))
+    groupBy := [.col [97], .bin .plus (.col [98]) (.val tyInt [49])]
+    having := some (.cmp .gt (.func [99] [.col [97]]) (.val tyInt [50]))
+    orderBy := [⟨.col [97], true⟩, ⟨.col [98], false⟩]
+    limit := .countOffset (.val tyInt [53]) (.val tyInt [50]) }
+
+/-- non-vacuity: `select distinct a as x, *, f(b, 1) from t left join u as v on a = b natural join w, z as y where a = 1
+and (b or c is null) group by a, b + 1 having c(a) > 2 order by a desc, b asc limit 5 offset 2` is well-formed and
+round-trips -/
+example : exSel.okB = true ∧ parseSel (stoks exSel) = some exSel :=
+  have h : exSel.okB = true := by decide +kernel
+  ⟨h, select_roundtrip_checked exSel h⟩
+
+private def badSel : Sel :=
+  { distinct := false
+    items := [.star]
+    from_ := [⟨⟨[116], none⟩, [⟨.natural, ⟨[117], none⟩, some (.cmp .eq (.col [97]) (.col [98]))⟩]⟩]
+    where_ := none
+    groupBy := []
+    having := none
+    orderBy := []
+    limit := .none }
+
+/-- **A statement outside the image of the parser does not round-trip**: a NATURAL JOIN carrying an ON condition (a tree a
+rewrite could build, the grammar never does) is printed `select * from t natural join u on a = b`, which the parser
+rejects. -/
+theorem select_not_ok_counterexample : badSel.okB = false ∧ parseSel (stoks badSel) = none := by decide +kernel
+
+end SelectCore
 
 end AcraModel.Props.C13
